@@ -198,6 +198,7 @@ reg("C11", ["c11_pcrash.c"], level="fault_enumeration",
          "auxiliary buffers 4096/65535/65536/size+1 (tears sampled around the 8- and 16-bit boundaries). A signature is a (configuration, aux size) pair; evaluations counts crash images judged plus "
          "fault positions injected.",
     assumptions=["a torn write leaves a prefix of its octets on the medium; writes are not reordered",
+                 "reading of 'never validate a mixed image silently' for a store whose data write fails or transfers short: the library must not go on and write a checksum over what it left (the medium may validate afterwards only as the previous or the new image, or by a chance collision with the checksum that was already there)",
                  "zero-length medium accesses cannot fail visibly and are not counted as injected faults"])
 
 reg("C01", ["c01_typed.c"],
